@@ -542,5 +542,6 @@ class AdaptiveForceBias(ForceBias):
         Forces
             The forces acting on the atoms after the Monte Carlo step.
         """
+        self.atoms.get_forces()  # the committee data read below must describe the current positions
         self.update_delta()
         return super().step()
